@@ -2143,6 +2143,8 @@ func constInt(v ssa.Value) (int64, bool) {
 
 // LE gives the linear view of an integer-typed value. Conversions between integer types are the identity here;
 // C11-R2 (bounded counts) is the obligation that makes that sound for attacker-chosen 64-bit values.
+var inCopyLE bool
+
 func (e *Env) LE(v ssa.Value) LE {
 	e.note(v)
 	switch v := v.(type) {
@@ -2209,6 +2211,17 @@ func (e *Env) LE(v ssa.Value) LE {
 	case *ssa.Call:
 		if b, ok := v.Call.Value.(*ssa.Builtin); ok && b.Name() == "len" {
 			return e.lenOf(v.Call.Args[0])
+		}
+		if b, ok := v.Call.Value.(*ssa.Builtin); ok && b.Name() == "copy" && !inCopyLE {
+			// copy returns the smaller length; where the destination is known to hold the source (at the call, or at a call
+			// site above it) that is the length of the source
+			ld, ls := e.lenOf(v.Call.Args[0]), e.lenOf(v.Call.Args[1])
+			inCopyLE = true
+			res := e.P.proveLinIn(e, nil, v, func(*Env) []LE { return []LE{ld.minus(ls)} }, nil, 0)
+			inCopyLE = false
+			if res.OK {
+				return ls
+			}
 		}
 		if v.Call.Signature().Results().Len() == 1 && isInteger(v.Type()) {
 			if rv, sub := e.inlineResult(v, 0); rv != nil {
